@@ -51,6 +51,14 @@ def run(ctx: Any, prog: Program) -> None:
                         ]
     ctx.rule('C08.D1', 'IDMan.get_id returns only values it has just reserved; desired ids must be positive; search_pos discipline', floor=8)
     ctx.rule('C08.D2', '_used is private to the managers; object ids are assigned only from get_id in constructors', floor=8)
+    # per-object state that methods change in place must not be a class-level container shared by every instance (see engine.model)
+    from engine.model import shared_mutable_class_attrs as _smca
+    for _m in (vm,):
+        _hits = _smca(_m.tree, [c.name for c in _m.tree.body if isinstance(c, ast.ClassDef)])
+        for _cn, _attr, _st in _hits:
+            ctx.check('C08.D2', False, _m, _st, f'{_cn}.{_attr} is a class-level container (`{U(_st.value)[:30]}`) that methods change in place and no __init__ assigns: all {_cn} objects share it, so ids or indexes recorded for one map leak into every other map',
+                      func=_cn, text=f'{_cn}.{_attr} is per-object state')
+        ctx.check('C08.D2', True, _m, _m.tree, f'{len(_hits)} shared class-level containers in {_m.relpath}', func='<module>', text=f'{_m.relpath}: class-level containers examined')
     ctx.rule('C08.D3', 'each class acquires and releases through its own manager; map reference never re-assigned', floor=8)
     ctx.rule('C08.D4', 'object ids are released only in __del__; node ids released on removal are re-acquired on add', floor=6)
     ctx.rule('C08.D5', 'fixup indexes: lowest unused index >= 1, duplicates re-indexed, copies keep indexes', floor=4)
